@@ -38,7 +38,7 @@ def main():
             print("PATCH FAILED", r.stdout, r.stderr)
             return 2
         for pid in ids:
-            env = dict(os.environ, VERIF_REPO=tmp, VERIF_SEED=seed)
+            env = dict(os.environ, VERIF_REPO=tmp, VERIF_SEED=seed, VERIF_NO_EVIDENCE="1")
             r = subprocess.run([os.path.join(HERE, "check"), pid, tier], env=env, capture_output=True, text=True, cwd=HERE)
             viol = [l for l in r.stdout.splitlines() if l.startswith("VIOLATION")]
             detail = [l for l in r.stdout.splitlines() if l.startswith("---")]
